@@ -801,6 +801,14 @@ func decodedPart(o hx.Opts, r *hx.Rand) {
 func main() {
 	o := hx.ParseArgs()
 	r := hx.NewRand(o.Seed)
+	if o.Only != "" && hx.ReplayPart(o.Only) == "rsp" {
+		var in RspIn
+		if err := hx.LoadReplay(o.Only, &in); err != nil {
+			hx.Fatal("replay: %v", err)
+		}
+		rspPart(o, r, &in)
+		return
+	}
 	n := 120
 	if o.Tier != "quick" {
 		n = 1200
@@ -823,6 +831,7 @@ func main() {
 		cases = append(cases, hx.Case{ID: i, Kind: "tcp", Input: map[string]interface{}{"next_hops": hopsIn, "steps": steps}, Obs: nil, Crash: crash, Coq: coqCase(i, steps, hops)})
 	}
 	decodedPart(o, r)
+	rspPart(o, hx.NewRand(o.Seed+0x5eed), nil)
 	dist["checksum-steered-segments"] = steered
 	dist["state-removed"] = removed
 	dist["state-removed-while-others-active"] = removedWhileOthersActive
